@@ -705,3 +705,9 @@ impl Property for C05 {
 fn main() {
     engine::main::<C05>()
 }
+
+/// entry point of the libFuzzer target `fuzz/fuzz_targets/c05.rs`
+#[allow(dead_code)]
+pub fn fuzz(data: &[u8]) {
+    engine::fuzz_one::<C05>(data)
+}
